@@ -207,6 +207,82 @@ def wrapped_oracle(spec, cfg):
     return None
 
 
+class _ScalarBase:
+    fault = None
+
+
+SCALAR_CLASSES = {}
+
+
+def scalar_class(base):
+    """a subclass of a built-in SCALAR type with its own registered printer (which can be made to fail)"""
+    from prettyprinter import register_pretty, pretty_call
+    if base not in SCALAR_CLASSES:
+        cls = type('Scalar_' + base.__name__, (base,), {'fault': None})
+        cls.__module__ = 'c14'
+        cls.__qualname__ = cls.__name__
+
+        def printer(value, ctx, _cls=cls, _base=base):
+            f = _cls.fault
+            if f is not None and f[0] == 'raise':
+                raise G.EXC_CLASSES[f[1]]('scalar-boom {x} %s')
+            if f is not None and f[0] == 'nondoc':
+                return 42
+            return pretty_call(ctx, _cls, _base(value))
+        printer.__qualname__ = 'scalar_printer_' + base.__name__
+        register_pretty(cls)(printer)
+        SCALAR_CLASSES[base] = cls
+    return SCALAR_CLASSES[base]
+
+
+def scalar_fault_cases():
+    out = []
+    for base, raw in ((int, 7), (float, 2.5), (str, 'tag'), (bytes, b'blob'), (complex, 1 + 2j)):
+        for exc in sorted(G.EXC_CLASSES):
+            for shape in ('top', 'list', 'dictval', 'dictkey', 'tuple1', 'deep'):
+                out.append({'base': base.__name__, 'raw': repr(raw), 'fault': ['raise', exc], 'shape': shape})
+        out.append({'base': base.__name__, 'raw': repr(raw), 'fault': ['nondoc', ''], 'shape': 'top'})
+    return out
+
+
+def scalar_oracle(spec, cfg):
+    base = {'int': int, 'float': float, 'str': str, 'bytes': bytes, 'complex': complex}[spec['base']]
+    cls = scalar_class(base)
+    val = cls(eval(spec['raw']))
+
+    def place(x):
+        sh = spec['shape']
+        if sh == 'top':
+            return x
+        if sh == 'list':
+            return [1, x, 'after']
+        if sh == 'dictval':
+            return {'before': [1, 2], 'here': x}
+        if sh == 'dictkey':
+            return {x: 1, 'other': 2}
+        if sh == 'tuple1':
+            return (x,)
+        return {'a': [[(x, 1)], 'end']}
+    cls.fault = tuple(spec['fault'])
+    try:
+        text, ws = G.run_impl(place(val), cfg)
+    finally:
+        cls.fault = None
+    if spec['fault'][0] == 'nondoc':
+        return None if text == 'EXC ValueError' else 'a printer returning a non-document at top level gave %r instead of ValueError' % text[:100]
+    want, _w = G.run_impl(place(G.Marker(repr(val))), cfg)
+    if text.startswith('EXC'):
+        return 'pformat raised %s although the failure is contained' % text
+    if text != want:
+        return 'output differs from the print in which exactly the failing value is its repr:\n%s\n--- expected ---\n%s' % (
+            text[:300], want[:300])
+    bad = [m for m in ws if 'raised an exception' in m]
+    if not bad or any('scalar_printer_' + spec['base'] not in m.split('raised an exception')[0] or
+                      'Falling back to default repr' not in m for m in bad):
+        return 'expected repr-fallback warnings naming the failing printer, got %r' % ([m[:140] for m in ws],)
+    return None
+
+
 def cases_for(tier):
     r = rng(PROP)
     out = []
@@ -270,6 +346,16 @@ def main(tier):
             if msg and len(run.violations) < 6:
                 run.violation({'kind': 'wrapped', 'detail': msg, 'spec': spec, 'cfg': cfg})
         run.coverage['wrapped_fault_cases'] = nwrap
+        # failing printers registered for subclasses of the built-in SCALAR types
+        nsc = 0
+        for spec in scalar_fault_cases():
+            cfg = dict(width=r2.choice([10, 79]))
+            nsc += 1
+            run.count(1)
+            msg = scalar_oracle(spec, cfg)
+            if msg and len(run.violations) < 9:
+                run.violation({'kind': 'scalar', 'detail': msg, 'spec': spec, 'cfg': cfg})
+        run.coverage['scalar_subclass_fault_cases'] = nsc
         if dis:
             run.broken.append('correspondence: graph level with failing printers (text and warnings), %d disagreements' % dis)
         run.coverage['disagreements_checked'] = dis
@@ -287,7 +373,8 @@ def main(tier):
             'top-level non-document, and a later fault-free print is unaffected. Also (oracle only, not in the model): a '
             'failing value wrapped in trailing_comment() / comment() / both / two trailing comments, at top level, in a '
             'list, 1-tuple, dict value, dict key, call argument, nested - the retry without the trailing comment is '
-            'contained at the value as well. non-trivial = cases with >= 1 warning')
+            'contained at the value as well; failing printers registered for subclasses of int / float / str / bytes / '
+            'complex (13 exception classes x 6 positions, non-document at top level). non-trivial = cases with >= 1 warning')
         for k in (0, len(cases) // 2, len(cases) - 1):
             run.sample({'heap': cases[k][0], 'root': cases[k][1], 'cfg': cases[k][2], 'impl': impl[k][0][:300]})
     return run.finish()
@@ -297,6 +384,10 @@ def replay(path):
     import c13
     with open(path) as f:
         p = json.load(f)
+    if p.get('kind') == 'scalar':
+        msg = scalar_oracle(p['spec'], p['cfg'])
+        print('oracle:', msg)
+        return 1 if msg else 0
     if p.get('kind') == 'wrapped':
         msg = wrapped_oracle(p['spec'], p['cfg'])
         print('oracle:', msg)
